@@ -1,5 +1,6 @@
 import Bt.Algos.Program
 import Bt.Algos.Select
+import Bt.Algos.ProgramF
 /-
   Whole programs, extended: the selection part of a stack is any sequence of the selection algos modelled for C14
   (`Bt/Algos/Select.lean`: SelectAll, SelectThese, SelectHasData, SelectMomentum = StatTotalReturn + SelectN), evaluated on the
@@ -8,6 +9,12 @@ import Bt.Algos.Select
 
   Date offsets (lookback, lag) are resolved to row positions by pandas on the Python side and travel as one entry per row of
   the index (`lo[d]`, `win[d]`), exactly as in the C14 protocol.
+
+  Frame-driven algos (`Bt/Algos/ProgramF.lean`): `SelectWhere(signal)`, `SetStat(stat, lag)` + `SelectN`, `WeighTarget(weights)`
+  read a frame the user supplies at `target.now` (or `now − lag`); the row they read on each row of the index is resolved on the
+  Python side and travels with the program (`rows[d]`, `ProgX.target`), `none` where the frame has no row for the date.
+  `Require`, `SelectRegex`, `SelectTypes` act on `temp['selected']` alone; `CloseDead` (a `WStep`) closes the children whose
+  universe price at `target.now` is `<= 0` and drops them from `temp['weights']`.
 -/
 namespace Bt.Prog
 open Bt Bt.Select
@@ -37,14 +44,36 @@ inductive SelStep (α : Type) where
   | hasData (lo : List Nat) (minCount : Nat) (nd neg : Bool)
   /-- `SelectMomentum(n, lookback, lag, sort_descending, all_or_none)`: `win[d]` = positions of `loc[t0 − lookback : t0]` -/
   | momentum (win : List (Option (Nat × Nat))) (n : NSpec α) (asc aon : Bool)
+  /-- `SelectWhere(signal, include_no_data, include_negative)`: `scols` = the signal frame's columns (child indices, in the
+      frame's order); `rows[d]` = `signal.loc[now]` on row `d` (`none`: the date is not in the frame's index - the algo leaves
+      `temp['selected']` as it is and answers True); a cell is `some true` exactly when `sig == True` holds (NaN: `none`) -/
+  | where_ (scols : List Nat) (rows : List (Option (List (Option Bool)))) (nd neg : Bool)
+  /-- `SetStat(stat, lag)` followed by `SelectN(n, sort_descending, all_or_none, filter_selected)`: `scols` = the statistic
+      frame's columns; `rows[d]` = `stat.loc[now - lag]` on row `d` (`none`: that date is not in the frame's index - `SetStat`
+      answers False, the stack stops) -/
+  | statN (scols : List Nat) (rows : List (Option (List (Option α)))) (n : NSpec α) (asc aon fs : Bool)
+  /-- `Require(lambda x: len(x) > 0, 'selected', if_none)` -/
+  | require (ifNone : Bool)
+  /-- `SelectRegex(regex)`: `ok` = the children whose name the expression matches (`re.search`, evaluated on the Python side) -/
+  | regex (ok : List Nat)
+  /-- `SelectTypes(include_types, exclude_types)`: `kids` = `target.children` with their classes -/
+  | types (kids : List (Nat × Ty)) (incl excl : List Ty)
 
-/-- one selection algo on `temp['selected'] = prior`; `none` = the algo returned False (the stack stops) -/
-def selStep (t : Table Nat α) (d : Nat) (prior : Option (List Nat)) : SelStep α → Except SelErr (Option (List Nat))
-  | .all nd neg => (selectAll t d nd neg).map some
-  | .these idx nd neg => (selectThese t d idx nd neg).map some
-  | .hasData lo mc nd neg => (selectHasData t d (lo.getD d 0) mc nd neg prior).map some
+/-- one selection algo on `temp['selected'] = prior`; `none` = the algo returned False (the stack stops), `some s` = it
+    returned True leaving `temp['selected'] = s` (`s = none`: still not set) -/
+def selStep (t : Table Nat α) (d : Nat) (prior : Option (List Nat)) :
+    SelStep α → Except SelErr (Option (Option (List Nat)))
+  | .all nd neg => (selectAll t d nd neg).map fun l => some (some l)
+  | .these idx nd neg => (selectThese t d idx nd neg).map fun l => some (some l)
+  | .hasData lo mc nd neg => (selectHasData t d (lo.getD d 0) mc nd neg prior).map fun l => some (some l)
   | .momentum win n asc aon =>
-    (selectMomentum t d ((win.getD d none)) prior n asc aon).map fun r => r.map (·.2)
+    (selectMomentum t d ((win.getD d none)) prior n asc aon).map fun r => r.map fun x => some x.2
+  | .where_ scols rows nd neg => (selectWhere t d scols (rows.getD d none) nd neg prior).map some
+  | .statN scols rows n asc aon fs =>
+    (selectStatN scols (rows.getD d none) prior n asc aon fs).map fun r => r.map some
+  | .require ifNone => pure (if requireSel ifNone prior then some prior else none)
+  | .regex ok => (selectRegex (fun k => ok.contains k) prior).map fun l => some (some l)
+  | .types kids incl excl => pure (some (some (selectTypes kids incl excl prior)))
 
 /-- the selection algos in stack order; `none` = some algo returned False -/
 def selSteps (t : Table Nat α) (d : Nat) : List (SelStep α) → Option (List Nat) → Except SelErr (Option (Option (List Nat)))
@@ -53,7 +82,7 @@ def selSteps (t : Table Nat α) (d : Nat) : List (SelStep α) → Option (List N
     (selStep t d prior s).bind fun r =>
     match r with
     | none => pure none
-    | some sel => selSteps t d rest (some sel)
+    | some sel => selSteps t d rest sel
 
 /-! ### weight post-processing between the weigher and `Rebalance`
 
@@ -86,6 +115,9 @@ inductive WStep (α : Type) where
       ever called with fresh `temp['weights']`, which re-arms it (`_days_left = n`) - its memory is never used -, and hands
       `{k: cur_k + (w_k - cur_k) / n}` to the `Rebalance` it owns.  Only meaningful as the last step. -/
   | overTime (n : α)
+  /-- `CloseDead()`: every child whose universe price at `target.now` is `<= 0` is closed (`target.close(c)`) and dropped
+      from `temp['weights']` (`closeDead`, Bt/Algos/ProgramF.lean) -/
+  | closeDead
 
 /-- the limit that applies to key `k` -/
 def ldLim (glob : Option α) (per : List (Nat × α)) : Nat → Option α :=
@@ -127,6 +159,7 @@ def postStep (cfg : Cfg α) (path : List Nat) : WStep α → World α × List (N
     match w1.root.get? path with
     | some (.strat _ kids) => pure (w1, rotTargets n (curWeights kids) ws)
     | _ => throw Err.badPath
+  | .closeDead, (w, ws) => closeDead cfg path w ws
 
 /-- the post-processing algos in stack order -/
 def postSteps (cfg : Cfg α) (path : List Nat) : List (WStep α) → World α × List (Nat × α) → Except Err (World α × List (Nat × α))
@@ -142,9 +175,23 @@ structure ProgX (α : Type) where
   post : List (WStep α) := []
   /-- `temp['cash']` when a `SetCash` sits in the stack -/
   cash : Option α := none
+  /-- `some rows`: the weigher is `WeighTarget(frame)` (and `wgh` is not consulted): `rows[d]` is the frame's row for the date
+      of row `d` with missing entries dropped (`none`: the date is not in the frame's index - WeighTarget answers False, the
+      stack stops) -/
+  target : Option (List (Option (List (Nat × α)))) := none
 
 /-- errors of the selection algos (KeyError, IndexError, ...) surface as an error of the run -/
 def selErr : SelErr → Err := fun _ => Err.badPath
+
+/-- what the weigher leaves in `temp['weights']` on row `d`, `temp['selected']` being `sel`:
+    `.ok none` = `WeighTarget` answered False (the stack stops); an error = `WeighEqually` without `temp['selected']` (KeyError) -/
+def weigherX (p : ProgX α) (d : Nat) (sel : Option (List Nat)) : Except Err (Option (List (Nat × α))) :=
+  match p.target with
+  | some rows => pure (rows.getD d none)
+  | none =>
+    match p.wgh, sel with
+    | .equally, none => throw Err.badPath
+    | wg, sel => pure (some (weights wg (sel.getD [])))
 
 /-- the stack `[RunPeriod, sels..., weigher, post..., (SetCash,) Rebalance]` of the strategy at `path`, at row `d` -/
 def progRunX (cfg : Cfg α) (p : ProgX α) (path : List Nat) : RunFn α := fun d w =>
@@ -155,10 +202,11 @@ def progRunX (cfg : Cfg α) (p : ProgX α) (path : List Nat) : RunFn α := fun d
       | .error e => throw (selErr e)
       | .ok none => pure w                          -- a selector returned False: the stack stopped
       | .ok (some sel) =>
-        match p.wgh, sel with
-        | .equally, none => throw Err.badPath         -- WeighEqually without temp['selected']: KeyError
-        | wg, sel =>
-          (postSteps cfg path p.post (w, weights wg (sel.getD []))).bind fun s =>
+        (weigherX p d sel).bind fun r =>
+        match r with
+        | none => pure w                            -- WeighTarget: no row for this date
+        | some ws0 =>
+          (postSteps cfg path p.post (w, ws0)).bind fun s =>
           algoRebalance cfg s.1 path s.2 p.cash none
     | _ => throw Err.badPath
   else pure w
